@@ -75,6 +75,34 @@ func (P *Program) VerifyFunc(fn *ssa.Function, ct *Contract, full bool, pathCap 
 	for k, v := range st.ghost {
 		x.entry.ghost[k] = v
 	}
+	if ct != nil && full {
+		// refinement of preconditions: a caller through the interface establishes only the
+		// interface contract's preconditions; they must imply this method's own
+		var inames []string
+		for n := range ct.IfaceReq {
+			inames = append(inames, n)
+		}
+		sort.Strings(inames)
+		for _, n := range inames {
+			st0 := st.clone()
+			for _, rq := range ct.IfaceReq[n] {
+				if t, ok := x.evalSpec(st0, rq.Expr, "pre"); ok {
+					st0.add(t)
+				}
+			}
+			for i, rq := range ct.Requires {
+				t, ok := x.evalSpec(st0, rq.Expr, "pre")
+				if !ok {
+					continue
+				}
+				label := rq.Label
+				if label == "" {
+					label = fmt.Sprint(i + 1)
+				}
+				x.oblige(st0, "refine", n+":"+label, t, fn.Pos(), "the preconditions of "+n+" imply this implementation's precondition: "+rq.Text)
+			}
+		}
+	}
 	if ct != nil {
 		for _, rq := range ct.Requires {
 			t, ok := x.evalSpec(st, rq.Expr, "pre")
@@ -226,6 +254,9 @@ func (env *Env) mcall(e *Expr) SV {
 	cenv.binds["result"] = specBinding{Val{T: r}, rt}
 	cenv.binds["result0"] = specBinding{Val{T: r}, rt}
 	for _, en := range ct.Ensures {
+		if len(en.Props) > 0 && x.prop != "" && !hasProp(en.Props, x.prop) {
+			continue // not proved in this run, so not assumed in it
+		}
 		t := cenv.eval(en.Expr)
 		if cenv.err != nil {
 			return env.fail("in contract of %s: %v", relName(callee), cenv.err)
